@@ -9,7 +9,7 @@ recursion is well defined - arcovar_marple / modcovar_marple.  N up to 128: ObsC
 import numpy as np
 
 from .. import core, material as M, tlc, obs
-from ..kern_util import call_guard, cmp_vec, cmp_scalar
+from ..kern_util import call_guard, cmp_vec, cmp_scalar, entry_variants
 
 
 def finite(*vals):
@@ -46,18 +46,22 @@ def replay_state(chk, st, cplx, expo):
                 chk.skip('covar-ill-conditioned')
                 continue
             case = {'x': xa, 'order': p, 'method': which, 'expect': {'a': expA, 'e': expE}}
-            ok, res = call_guard(fn, xa.copy(), p)
-            chk.evaluations += 1
             name = fn.__name__
-            if not ok:
-                chk.violation('C14:%s:%s:raises' % (name, mode), '%s raises %r on a well-posed problem' % (name, res), case)
-            else:
-                a, e = res
-                bad = cmp_vec(a, expA, tol=1e-7, name='ar') or cmp_scalar(e, expE, tol=1e-7, name='error')
-                if bad:
-                    chk.violation('C14:%s:%s:values' % (name, mode),
-                                  '%s(x=%s, %d) is not the least-squares minimiser: %s' % (name, xa.tolist(), p, bad),
-                                  dict(case, observed={'a': a, 'e': e}))
+            counter = getattr(chk, '_c14_counter', 0)
+            chk._c14_counter = counter + 1
+            for ename, xin, tol in entry_variants(xa, cplx, counter, full=chk.tier != 'quick'):
+                ok, res = call_guard(fn, xin if isinstance(xin, list) else xin.copy(), p)
+                chk.evaluations += 1
+                tol = max(tol, 1e-7) if tol < 1e-6 else 1e-3      # single precision least squares
+                if not ok:
+                    chk.violation('C14:%s:%s:raises:%s' % (name, mode, ename), '%s raises %r on a well-posed problem (%s input)' % (name, res, ename), case)
+                else:
+                    a, e = res
+                    bad = cmp_vec(a, expA, tol=tol, name='ar') or cmp_scalar(e, expE, tol=tol, name='error')
+                    if bad:
+                        chk.violation('C14:%s:%s:values:%s' % (name, mode, ename),
+                                      '%s(x=%s as %s, %d) is not the least-squares minimiser: %s' % (name, xa.tolist(), ename, p, bad),
+                                      dict(case, entry=ename, observed={'a': a, 'e': e}))
             ok, obj = call_guard(lambda: cls(xa.copy(), p, NFFT=16))
             if ok:
                 ok, err = call_guard(lambda: obj.psd)
